@@ -1005,7 +1005,14 @@ func (x *Exec) doSelect(st *State, i *ssa.Select) {
 // fireSelectHooks runs recv/send hooks for the chosen select case.
 func (x *Exec) fireSelectHooks(st *State, i *ssa.Select, idx int, kind, txt string, ch Term, tu Tuple) {
 	for _, h := range x.hooksAt[i] {
-		if h.Kind != kind || !anchorMatch(h.Anchor, txt) {
+		if h.Kind != kind {
+			continue
+		}
+		if set, byIdent := x.identHooks[h]; byIdent {
+			if !set[x.valueIdentity(i.States[idx].Chan, 0)] {
+				continue
+			}
+		} else if !anchorMatch(h.Anchor, txt) {
 			continue
 		}
 		var val SymVal
